@@ -1309,6 +1309,20 @@ def oracle(ctx: Ctx) -> OracleResult:
         for _msg, cls in info.get('loop_errors', []):
             res.failures.append(Failure(signature=f'loop-exception:{cls}', what=f'listener history {ops}',
                                         replay={'kind': 'listeners', 'ops': ops}))
+    # (5) several forwards on one connection ------------------------------------------------------------------------
+    mcases = [(list(k), list(pr), cn) for k, pr, cn in MULTI_CORPUS] + \
+        [gen_multi_case(rng) for _ in range(vol(ctx, 12, 200))]
+    mdata = pair.run(multi_forward_cases(mcases), timeout=1500)
+    mrep: Dict[str, int] = {}
+    for (kinds_, probes_, cancel_), probs in zip(mcases, mdata):
+        res.evaluations += 1
+        hist.hit('multi-forward:%d:%s' % (len(kinds_), 'cancel' if cancel_ is not None else 'no-cancel'))
+        for sig, what in probs:
+            hist.hit('multi-forward-problem:' + sig)
+            mrep[sig] = mrep.get(sig, 0) + 1
+            if mrep[sig] <= 2:
+                res.failures.append(Failure(signature=sig, what=what, replay={
+                    'kind': 'multi-forward', 'kinds': kinds_, 'probes': probes_, 'cancel': cancel_}))
     res.nontrivial = len(set(b''.join(c) for c in cases)) + len(set((k, tuple(s)) for k, s in scen)) + \
         sum(len(o) for _c, o in pdata) + len(set(tuple(c) for c in lcases))
     res.histogram = dict(hist)
@@ -1323,6 +1337,131 @@ def oracle(ctx: Ctx) -> OracleResult:
                 'sessions judged against an independent statement of the OpenSSH rule; listener histories incl. '
                 'creation racing cleanup judged by listening sockets left')
     return res
+
+
+# ---------------------------------------------------------------------------------------------------------
+# (5) several forwards on ONE connection: each listener leads to ITS destination, also after a sibling is cancelled
+
+MULTI_KINDS = ['remote0', 'remote0', 'remoteN', 'local', 'socks']
+MULTI_CORPUS = [(['remote0', 'remote0'], [0, 1, 0], 1), (['remote0', 'remote0', 'remote0'], [2, 0, 1], 2),
+                (['remote0', 'local', 'remote0'], [0, 1, 2], 2), (['remote0', 'remoteN', 'remote0'], [0, 1, 2, 0], 0),
+                (['local', 'local', 'socks'], [0, 1, 2], 1)]
+
+
+def gen_multi_case(rng: Any) -> Tuple[List[str], List[int], Optional[int]]:
+    kinds = [rng.choice(MULTI_KINDS) for _ in range(rng.choice([2, 2, 3, 4]))]
+    probes = [rng.randrange(len(kinds)) for _ in range(rng.randint(len(kinds), len(kinds) + 2))]
+    cancel = rng.choice([None, len(kinds) - 1, rng.randrange(len(kinds))])
+    return kinds, probes, cancel
+
+
+async def multi_forward_case(kinds: List[str], probes: List[int], cancel: Optional[int]) -> List[Tuple[str, str]]:
+    """[(signature, what)] -- every destination answers with its own tag, so a connection that comes out at the
+    wrong destination (or nowhere) is visible to the connecting side"""
+    probs: List[Tuple[str, str]] = []
+    dests: List[Any] = []
+    dports: List[int] = []
+    hits: List[int] = [0] * len(kinds)
+
+    def handler(i: int) -> Any:
+        async def handle(reader: Any, writer: Any) -> None:
+            hits[i] += 1
+            try:
+                writer.write(b'D%d:' % i)
+                d = await asyncio.wait_for(reader.read(64), 2)
+                writer.write(d)
+                await writer.drain()
+            except Exception:       # noqa: BLE001
+                pass
+            finally:
+                writer.close()
+        return handle
+    for i in range(len(kinds)):
+        srv = await asyncio.start_server(handler(i), '127.0.0.1', 0)
+        dests.append(srv)
+        dports.append(srv.sockets[0].getsockname()[1])
+    box: Dict[str, Any] = {'answer': True}
+    c, s, hub = await pair.make_pair(server_factory=R.server_factory(box))
+    listeners: List[Any] = []
+    try:
+        for i, k in enumerate(kinds):
+            if k == 'remote0':
+                l = await asyncio.wait_for(c.forward_remote_port('127.0.0.1', 0, '127.0.0.1', dports[i]), 3)
+            elif k == 'remoteN':
+                free = _free_port()
+                l = await asyncio.wait_for(c.forward_remote_port('127.0.0.1', free, '127.0.0.1', dports[i]), 3)
+            elif k == 'local':
+                l = await asyncio.wait_for(c.forward_local_port('127.0.0.1', 0, '127.0.0.1', dports[i]), 3)
+            else:
+                l = await asyncio.wait_for(c.forward_socks('127.0.0.1', 0), 3)
+            listeners.append(l)
+
+        async def probe(i: int, phase: str) -> None:
+            want = b'D%d:ping%d' % (i, i)
+            got = b''
+            try:
+                r, w = await asyncio.wait_for(asyncio.open_connection('127.0.0.1', listeners[i].get_port()), 2)
+                if kinds[i] == 'socks':
+                    w.write(R.socks5_request('127.0.0.1', dports[i]))
+                    got_reply = await asyncio.wait_for(r.readexactly(R.SOCKS5_REPLY_LEN), 2)
+                    if got_reply[:2] != b'\x05\x00':
+                        got = b'<socks refused>'
+                        raise ConnectionError('socks')
+                w.write(b'ping%d' % i)
+                while len(got) < len(want):
+                    d = await asyncio.wait_for(r.read(64), 2)
+                    if not d:
+                        break
+                    got += d
+                w.close()
+            except Exception as e:      # noqa: BLE001
+                got = got or ('<%s>' % type(e).__name__).encode()
+            if got != want:
+                reached = [j for j in range(len(kinds)) if got.startswith(b'D%d:' % j)]
+                sig = ('forward-reached-wrong-destination:' if reached else 'forward-reached-no-destination:') + \
+                    kinds[i] + (':after-sibling-cancelled' if phase == 'after' else '')
+                probs.append((sig, f'listener #{i} ({kinds[i]}) is configured for destination #{i}; a connection to it '
+                                   f'got {got[:40]!r} instead of {want!r} ({phase} cancel of #{cancel}); forwards on '
+                                   f'this connection: {kinds}'))
+        for i in probes:
+            await probe(i, 'before')
+        if cancel is not None:
+            listeners[cancel].close()
+            try:
+                await asyncio.wait_for(listeners[cancel].wait_closed(), 2)
+            except Exception:       # noqa: BLE001
+                pass
+            await R.quiesce()
+            for i in range(len(kinds)):
+                if i != cancel:
+                    await probe(i, 'after')
+    except Exception as e:      # noqa: BLE001
+        probs.append(('multi-forward-setup-failed:' + type(e).__name__, f'{kinds}: {e}'))
+    finally:
+        for l in listeners:
+            try:
+                l.close()
+            except Exception:       # noqa: BLE001
+                pass
+        c.abort()
+        s.abort()
+        for d in dests:
+            d.close()
+        await R.quiesce()
+    return probs
+
+
+def _free_port() -> int:
+    import socket
+    sk = socket.socket()
+    sk.bind(('127.0.0.1', 0))
+    p = sk.getsockname()[1]
+    sk.close()
+    return p
+
+
+async def multi_forward_cases(cases: List[Tuple[List[str], List[int], Optional[int]]]) -> List[List[Tuple[str, str]]]:
+    return [await multi_forward_case(*c) for c in cases]
 
 
 def scripts_from_relay_events(events: List[str]) -> List[Tuple[str, List[str]]]:
@@ -1369,6 +1508,9 @@ def replay(ctx: Ctx, rep: Dict[str, Any]) -> List[Failure]:
         tmp = ctx.tmpdir()
         data = pair.run(eval_scenarios([(r['forward'], r['script'])], tmp, 'r'), timeout=120)
         return [Failure(sig, what, r) for sig, what in data[0][2]]
+    if kind == 'multi-forward':
+        probs = pair.run(multi_forward_case(r['kinds'], r['probes'], r['cancel']), timeout=120)
+        return [Failure(sig, what, r) for sig, what in probs]
     if kind == 'big-early-data':
         big = pair.run(big_early_data_case(ctx.tmpdir()), timeout=120)
         return [Failure('ssh-connection-killed:socket-lost-before-channel-confirmed', str(big), r)] \
